@@ -148,10 +148,10 @@ def run_forked(fn, args=(), timeout=120.0):
 
 # ----------------------------------------------------------------------------------------
 def run_batch(run_index_fn, n_runs=None, budget_s=None, jobs=16, run_timeout=120.0, wall_cap=None,
-              min_runs=1):
+              min_runs=1, is_bad=None, stop_after_bad=4):
     """Executes run_index_fn(i) for i = 0, 1, 2, ... in forked children of `jobs` workers.
 
-    Worker k handles indices k, k+jobs, ...  Stops after n_runs runs (if given) and/or when
+    Workers take the next free index from a shared counter.  Stops after n_runs runs (if given) and/or when
     budget_s seconds have elapsed (whichever comes first; at least min_runs indices are always run).
     Returns (results: dict index -> result, errors: list of (index, text)).
     `wall_cap`: hard cap; if hit, a HarnessError is recorded (never a clean exit).
@@ -164,6 +164,13 @@ def run_batch(run_index_fn, n_runs=None, budget_s=None, jobs=16, run_timeout=120
     workers = []
     sys.stdout.flush()
     sys.stderr.flush()
+    # shared run-index counter (a locked scratch file): workers take the next index when they are free, so one
+    # expensive run does not hold up the indices statically assigned behind it. Which worker executes a run has no
+    # influence on the run (everything derives from the index), only on the wall clock.
+    import tempfile
+    counter_fd, counter_path = tempfile.mkstemp(prefix='segno-sim-counter-')
+    os.unlink(counter_path)
+    os.write(counter_fd, (0).to_bytes(8, 'little'))
     for k in range(jobs):
         r, w = os.pipe()
         pid = os.fork()
@@ -173,8 +180,11 @@ def run_batch(run_index_fn, n_runs=None, budget_s=None, jobs=16, run_timeout=120
                 for (_, rr) in workers:
                     os.close(rr)
                 out = os.fdopen(w, 'wb')
-                i = k
+                nbad = 0
                 while True:
+                    if nbad >= stop_after_bad:
+                        break   # enough failing runs seen by this worker: do not spend the batch on re-finding them
+                    i = _next_index(counter_fd)
                     if n_runs is not None and i >= n_runs:
                         break
                     if soft_deadline is not None and time.monotonic() > soft_deadline and i >= min_runs:
@@ -182,11 +192,12 @@ def run_batch(run_index_fn, n_runs=None, budget_s=None, jobs=16, run_timeout=120
                     try:
                         res = run_forked(run_index_fn, (i,), timeout=run_timeout)
                         msg = {'i': i, 'res': res}
+                        if is_bad is not None and is_bad(res):
+                            nbad += 1
                     except HarnessError as ex:
                         msg = {'i': i, 'herr': str(ex)}
                     out.write(jdump(msg).encode() + b'\n')
                     out.flush()
-                    i += jobs
                 out.write(b'{"done": true}\n')
                 out.flush()
                 out.close()
@@ -228,6 +239,7 @@ def run_batch(run_index_fn, n_runs=None, budget_s=None, jobs=16, run_timeout=120
                     errors.append((msg['i'], msg['herr']))
                 else:
                     results[msg['i']] = msg['res']
+    os.close(counter_fd)
     for pid, r in workers:
         try:
             os.close(r)
@@ -241,6 +253,19 @@ def run_batch(run_index_fn, n_runs=None, budget_s=None, jobs=16, run_timeout=120
 
 
 # ----------------------------------------------------------------------------------------
+def _next_index(fd):
+    import fcntl
+    fcntl.lockf(fd, fcntl.LOCK_EX)
+    try:
+        os.lseek(fd, 0, 0)
+        i = int.from_bytes(os.read(fd, 8), 'little')
+        os.lseek(fd, 0, 0)
+        os.write(fd, (i + 1).to_bytes(8, 'little'))
+    finally:
+        fcntl.lockf(fd, fcntl.LOCK_UN)
+    return i
+
+
 def ddmin_list(items, still_fails, max_tests=400):
     """Greedy delta debugging on a list: returns a (locally) minimal sub-list for which
     still_fails(sublist) is True. still_fails(items) is assumed True."""
@@ -274,7 +299,7 @@ def ddmin_list(items, still_fails, max_tests=400):
 
 # ----------------------------------------------------------------------------------------
 def write_replay(prop, seed, record):
-    d = os.path.join(VERIF, 'replays')
+    d = os.environ.get('VERIF_REPLAY_DIR') or os.path.join(VERIF, 'replays')
     os.makedirs(d, exist_ok=True)
     path = os.path.join(d, '%s-%s.json' % (prop, seed))
     with open(path, 'w') as f:
@@ -288,7 +313,7 @@ def load_json(path):
 
 
 def write_evidence(prop, tier, seed, coverage, wall_s, violations, assumptions, extra=None):
-    d = os.path.join(VERIF, 'evidence')
+    d = os.environ.get('VERIF_EVIDENCE_DIR') or os.path.join(VERIF, 'evidence')
     os.makedirs(d, exist_ok=True)
     ev = {'property_id': prop, 'tier': tier, 'seed': seed, 'level': 'exploration',
           'coverage': coverage, 'assumptions': assumptions, 'wall_s': round(wall_s, 2),
